@@ -23,6 +23,7 @@ type GenConfig struct {
 	Interval   int64
 	Threshold  int64
 	Late       bool // some clients attach late (by an A step)
+	Deactivate bool // allow X (deactivate) steps
 }
 
 var keys = []string{"k1", "k2", "k3"}
@@ -138,7 +139,10 @@ func Generate(r *rng.R, g GenConfig) *History {
 		if lazy[c] == 1 {
 			wSync = 1
 		}
-		w := []int{10, wSync, 0, 0, 0, 0, 0, 0}
+		w := []int{10, wSync, 0, 0, 0, 0, 0, 0, 0}
+		if g.Deactivate {
+			w[8] = 1
+		}
 		if g.Inflight {
 			w[2] = 2 // Sb
 			w[3] = 3 // Se
@@ -185,6 +189,8 @@ func Generate(r *rng.R, g GenConfig) *History {
 			} else {
 				h.Steps = append(h.Steps, Step{Op: "A", C: c})
 			}
+		case 8:
+			h.Steps = append(h.Steps, Step{Op: "X", C: c})
 		case 7:
 			if r.Chance(2, 3) {
 				h.Steps = append(h.Steps, Step{Op: "Z", C: c})
